@@ -403,7 +403,6 @@ func condsDNF(cs []Cond, depth int) [][]Cond {
 	return out
 }
 
-
 // decisionCallees: reviewed decision functions by the prefix their call atoms start with
 // ("(*filter.FilterNode).isHeadersQualified"); set by the property that owns the tables.
 var decisionCallees = map[string]*ssa.Function{}
